@@ -48,6 +48,7 @@ static void hook_common(tpt_p tpt, int start) {
 	}
 	if (idx < 0 || idx > pw->n) { pw->hook_bad++; return; }
 	if (start) pw->start_cnt[idx]++; else pw->stop_cnt[idx]++;
+	if (!start && W.slow_stop_hook_ns && idx < pw->n) sim_sleep_ns(W.slow_stop_hook_ns, "hook.stop.work");
 	if (pw->destroyed) sim_violation("callback-after-destroy", "%s hook for thread %d ran after tp_destroy returned", start ? "start" : "stop", idx);
 	sim_log("hook %s pool%d thr %d", start ? "start" : "stop", (int)(pw - W.pool), idx);
 }
